@@ -812,6 +812,78 @@ Proof.
     injection Hf as Hf. rewrite <- Hf. simpl. reflexivity.
 Qed.
 
+(* ---- add_template_file(s): the loop over files is the loop over the raw batch
+   `files_batch fs` (key and source of every entry up to and including the first one that
+   cannot be read or parsed); only the kind of the error differs *)
+Lemma insert_files_as_batch fs : forall m log,
+  insert_files m fs log =
+  (files_first_err fs, snd (fst (insert_all m (files_batch fs) log)),
+   snd (insert_all m (files_batch fs) log)) /\
+  (fst (fst (insert_all m (files_batch fs) log)) = true <-> files_first_err fs = None).
+Proof.
+  induction fs as [|f fs IH]; intros m log.
+  - simpl. split; [reflexivity|split; reflexivity].
+  - cbn [insert_files files_batch files_first_err]. unfold add_file.
+    destruct (fe_read f) as [ | | |[t|]]; cbn [insert_all fst snd];
+      try (split; [reflexivity|split; discriminate]).
+    apply IH.
+Qed.
+
+Theorem add_files_as_batch ev s fs :
+  add_files ev s fs =
+  (match files_first_err fs with
+   | Some e => Err e
+   | None => fst (add_batch ev s (files_batch fs))
+   end,
+   snd (add_batch ev s (files_batch fs))).
+Proof.
+  unfold add_files, add_batch.
+  destruct (insert_files_as_batch fs (st_tpls s) []) as [-> Hok].
+  destruct (insert_all (st_tpls s) (files_batch fs) []) as [[ok m1] log1]. cbn [fst snd] in *.
+  destruct (files_first_err fs) as [e|].
+  - destruct ok; [destruct Hok as [Hok _]; discriminate (Hok eq_refl)|]. reflexivity.
+  - destruct ok; [|destruct Hok as [_ Hok]; discriminate (Hok eq_refl)].
+    destruct (finalize ev (with_tpls s m1)); reflexivity.
+Qed.
+
+(* a file call that reports an error: the raw call on its batch reports one too *)
+Lemma add_files_err_batch_err ev s fs e :
+  fst (add_files ev s fs) = Err e -> exists e', fst (add_batch ev s (files_batch fs)) = Err e'.
+Proof.
+  rewrite add_files_as_batch. cbn [fst]. intros H.
+  destruct (files_first_err fs) as [e0|] eqn:F; [|eauto].
+  unfold add_batch. destruct (insert_files_as_batch fs (st_tpls s) []) as [_ Hok].
+  destruct (insert_all (st_tpls s) (files_batch fs) []) as [[ok m1] log1]. cbn [fst snd] in *.
+  destruct ok; [destruct Hok as [Hok _]; rewrite F in Hok; discriminate (Hok eq_refl)|].
+  eexists. reflexivity.
+Qed.
+
+(* whatever fails -- a path that is not UTF-8, a file that cannot be opened or is not UTF-8,
+   a syntax error, any error of finalize -- in whatever position of the batch: the instance is
+   exactly what it was *)
+Theorem add_files_err_is_identity ev s fs e s' :
+  msorted (st_tpls s) -> add_files ev s fs = (Err e, s') -> s' = s.
+Proof.
+  intros Hs H.
+  assert (fst (add_files ev s fs) = Err e) as H1 by (rewrite H; reflexivity).
+  apply add_files_err_batch_err in H1. destruct H1 as [e' H1].
+  rewrite add_files_as_batch in H. injection H as _ <-.
+  destruct (add_batch ev s (files_batch fs)) as [r s1] eqn:E. cbn [fst snd] in *. subst r.
+  eapply add_err_is_identity; eauto.
+Qed.
+
+Lemma add_files_ok_batch_ok ev s fs s' :
+  add_files ev s fs = (Ok tt, s') -> add_batch ev s (files_batch fs) = (Ok tt, s').
+Proof.
+  rewrite add_files_as_batch. intros H. injection H as H1 H2.
+  destruct (files_first_err fs); [discriminate|].
+  destruct (add_batch ev s (files_batch fs)) as [r s1]. cbn [fst snd] in *. subst. reflexivity.
+Qed.
+
+Lemma add_files_ok_canonical ev s fs s' :
+  msorted (st_tpls s) -> add_files ev s fs = (Ok tt, s') -> canonical ev s'.
+Proof. intros Hs H. eapply add_ok_canonical; eauto using add_files_ok_batch_ok. Qed.
+
 Inductive reachable (ev : env) : state -> Prop :=
 | rch_init : forall sufs, reachable ev (init sufs)
 | rch_step : forall s c, reachable ev s -> reachable ev (snd (step ev s c)).
@@ -822,11 +894,14 @@ Theorem reachable_inv ev s : reachable ev s -> canonical ev s.
 Proof.
   induction 1 as [sufs | s c Hr IH].
   - apply canonical_init.
-  - destruct c as [b|sufs]; simpl.
+  - destruct c as [b|sufs|fs]; simpl.
     + destruct (add_batch ev s b) as [[[]|e] s'] eqn:E; simpl.
       * eapply add_ok_canonical; eauto. apply IH.
       * apply add_err_is_identity in E; [|apply IH]. subst. exact IH.
     + apply autoescape_canonical. exact IH.
+    + destruct (add_files ev s fs) as [[[]|e] s'] eqn:E; simpl.
+      * eapply add_files_ok_canonical; eauto. apply IH.
+      * apply add_files_err_is_identity in E; [|apply IH]. subst. exact IH.
 Qed.
 
 (* the (name, source) set a batch leaves behind *)
@@ -868,6 +943,40 @@ Proof.
     unfold finalize in *. simpl. rewrite Hsrc, <- Hsufs.
     destruct (finalize_src ev (st_sufs s') (sources (st_tpls s'))) as [[tm c]|]; [|discriminate].
     injection Hf' as Hf'. rewrite <- Hf'. reflexivity.
+Qed.
+
+(* the file form: a successful add_template_files leaves the set `override old (files_batch fs)`
+   and exactly the state a FRESH instance reaches when given that set in one call -- a raw batch
+   b' or a list of files fs', in any order, with or without repetitions and explicit names *)
+Theorem add_files_ok_equals_fresh ev s fs s' :
+  msorted (st_tpls s) -> add_files ev s fs = (Ok tt, s') ->
+  files_first_err fs = None /\
+  sources (st_tpls s') = override (sources (st_tpls s)) (files_batch fs) /\
+  (forall b' m' log',
+     insert_all [] b' [] = (true, m', log') -> sources m' = sources (st_tpls s') ->
+     add_batch ev (init (st_sufs s)) b' = (Ok tt, s')) /\
+  (forall fs' m' log',
+     insert_files [] fs' [] = (None, m', log') -> sources m' = sources (st_tpls s') ->
+     add_files ev (init (st_sufs s)) fs' = (Ok tt, s')).
+Proof.
+  intros Hs H. pose proof (add_files_ok_batch_ok _ _ _ _ H) as Hb.
+  destruct (add_ok_equals_fresh _ _ _ _ Hs Hb) as [Hsrc Hfresh].
+  split; [|split; [exact Hsrc|split; [exact Hfresh|]]].
+  - rewrite add_files_as_batch in H. destruct (files_first_err fs); [discriminate|reflexivity].
+  - intros fs' m' log' E Hm.
+    destruct (insert_files_as_batch fs' [] []) as [E1 Hok]. rewrite E in E1.
+    injection E1 as F1 F2 F3.
+    destruct (insert_all [] (files_batch fs') []) as [[ok m1] log1] eqn:E2. cbn [fst snd] in *.
+    subst m1 log1. destruct Hok as [_ Hok]. rewrite (Hok (eq_sym F1)) in E2.
+    rewrite add_files_as_batch, <- F1, (Hfresh _ _ _ E2 Hm). reflexivity.
+Qed.
+
+Lemma add_files_reachable ev s fs :
+  reachable ev s -> reachable ev (snd (add_files ev s fs)) /\ canonical ev (snd (add_files ev s fs)).
+Proof.
+  intros Hr. assert (reachable ev (snd (add_files ev s fs))) as H.
+  { exact (rch_step ev s (CAddFiles fs) Hr). }
+  split; [exact H|apply reachable_inv; exact H].
 Qed.
 
 Lemma run_reachable ev h : forall s, reachable ev s -> reachable ev (snd (run ev s h)).
